@@ -1,6 +1,7 @@
 package address
 
 import (
+	"strings"
 	"testing"
 
 	"github.com/wollac/iota-crypto-demo/pkg/bech32"
@@ -101,6 +102,22 @@ func TestVerifDriver(t *testing.T) {
 			h := make([]byte, l)
 			r.Read(h)
 			do("address.Bech32", M{"prefix": r.Intn(4), "version": ver, "hash": vInts(h)})
+			if k%4 == 0 { // right after a successful parse of an address: its spellings that are NOT valid
+				if s, err := Bech32(Prefix(r.Intn(4)), mkAddr(ver, h)); err == nil {
+					do("address.Parse", M{"s": vInts([]byte(s))})
+					b := []byte(s)
+					for i := range b {
+						if b[i] >= 'a' && b[i] <= 'z' && (i*7+k)%3 == 0 {
+							b[i] -= 32 // mixed case
+						}
+					}
+					do("address.Parse", M{"s": vInts(b)})
+					do("address.Parse", M{"s": vInts([]byte(strings.ToUpper(s)))}) // all upper case is valid
+					if i := strings.IndexByte(s[5:], 'k'); i >= 0 {
+						do("address.Parse", M{"s": vInts([]byte(strings.ToUpper(s[:5+i]) + "\u212a" + strings.ToUpper(s[5+i+1:])))})
+					}
+				}
+			}
 			// arbitrary version bytes / payload lengths under a valid checksum
 			hrp := hrps[r.Intn(len(hrps))]
 			v := byte(r.Intn(256))
